@@ -325,7 +325,9 @@ class Executor:
             # If output hashes changed fortuitously,
             # e.g. the user restored them to the expected state,
             # we still want to record the new hash.
-            self.workflow.update_file_hashes(new_out_hashes, cause=HashUpdateCause.SUCCEEDED)
+            self.workflow.update_file_hashes(
+                self._own_out_hashes(step, new_out_hashes), cause=HashUpdateCause.SUCCEEDED
+            )
             step.mark_completed(new_hash, False)
             # Do not call `scheduler.record_run_stopped`, as no start time was recorded either.
         self._report_step_counts()
@@ -362,7 +364,7 @@ class Executor:
                 run, new_hash, new_inp_hashes, unexpected_input_changes
             )
             self.workflow.update_file_hashes(
-                new_out_hashes,
+                self._own_out_hashes(step, new_out_hashes),
                 cause=HashUpdateCause.SUCCEEDED if run.success else HashUpdateCause.FAILED,
             )
             run.interrupted_defer = step.mark_completed(new_hash, wants_defer)
@@ -445,6 +447,22 @@ class Executor:
             new_hash = None
 
         return new_hash, wants_defer
+
+    @staticmethod
+    def _own_out_hashes(step: Step, new_out_hashes: Mapping[str, FileHash]) -> dict[str, FileHash]:
+        """Keep the new hashes of the paths that are still outputs of `step`.
+
+        Must be called inside the database transaction that records the hashes.
+        The output paths were collected in an earlier transaction, before they were hashed.
+        A step that is detached while it runs can lose an output in the meantime,
+        because another declaration may take over the path of a detached node.
+        The file then has another creator and another role,
+        and the outcome of this step has nothing to say about it any more.
+        """
+        if len(new_out_hashes) == 0:
+            return {}
+        own = {record.path for record in step.out_paths()}
+        return {path: fh for path, fh in new_out_hashes.items() if path in own}
 
     def _report_step_counts(self) -> None:
         """Request a step-state counts report, coalescing with any already pending.
